@@ -254,6 +254,17 @@ func corpusScale(c *vrep.Ctx, prop string) {
 	t, _ := strconv.ParseFloat(c.Param("t", "0.8"), 64)
 	cl := vEmbeddedCached(t)
 	docs := vDocPool(c.Pick(48, 431))
+	if c.Param("docs", "") == "c07findings" {
+		// the documents of the recorded C07 findings (so that the quick tier exhibits them too)
+		want := map[string]bool{"License/BSD-Rice/license.txt": true, "License/GPL-3.0-with-autoconf-exception/license.txt": true, "License/IJG/license.txt": true,
+			"License/InnerNet/license.txt": true, "License/MTK/pristine.txt": true, "License/OpenSSL/a.txt": true, "License/ZPL-2.1/license.txt": true}
+		docs = nil
+		for _, d := range vCorpusFiles() {
+			if want[d.Key] {
+				docs = append(docs, d)
+			}
+		}
+	}
 	fams := strings.Split(c.Param("families", "exact,edit1,periodic,scatter,truncate,concat,scenario,edit2"), ",")
 	c.R.Rule = fmt.Sprintf("corpus scale at T=%v: %d documents x edit-script families %v (single edits at 24 evenly spaced positions x {delete, substitute OOV, substitute vocabulary word, insert OOV}; edit pairs at 6 positions; periodic noise every 5..14 words; scattered irregular noise of 8-20%% density (low-discrepancy positions, mixed edit kinds); truncations 60-90%% from either end; pool concatenations; scenario files); oracle %s; non-trivial = distinct generated inputs for which Match returned at least one non-Copyright match", t, len(docs), fams, prop)
 	c.Bound("documents", len(docs))
@@ -311,9 +322,8 @@ func corpusScale(c *vrep.Ctx, prop string) {
 		c.Outcome(r.Note["res"].(string))
 		for _, m := range r.Note["msgs"].([]string) {
 			key := fmt.Sprintf("%s_corpus:T%v:%s", prop, t, id)
-			if prop == "c07" {
-				key += ":" + strings.SplitN(m, "|", 2)[0]
-			}
+			// C07: the identity of a failing case is (document, edit script); the contexts in which it
+			// fails are part of the message
 			c.Violate(strings.ReplaceAll(key, " ", "_"), fmt.Sprintf("%s: %s", id, m), r, m)
 		}
 	})
